@@ -21,7 +21,7 @@ type Disk struct {
 	Rate    int             // a fault fires with probability 1/Rate per eligible operation (default 6)
 	// ReadMode: 0 = every read fills the buffer as a regular file does; 1 = the length of
 	// every read is a tape decision (FIFO, /dev/stdin, network file systems).
-	ReadMode int
+	ReadMode  int
 	MaxFaults int // upper bound on injected faults per run (0 = unlimited)
 	injected  int
 	// Force: fault kind -> fire at exactly the k-th eligible operation (1-based), no draw
@@ -187,11 +187,11 @@ func (i SimInfo) Mode() fs.FileMode {
 	}
 	return i.n.perm
 }
-func (i SimInfo) ModTime() time.Time          { return time.Unix(0, 0) }
-func (i SimInfo) IsDir() bool                 { return i.n.dir }
-func (i SimInfo) Sys() interface{}            { return nil }
-func (i SimInfo) Type() fs.FileMode           { return i.Mode().Type() }
-func (i SimInfo) Info() (fs.FileInfo, error)  { return i, nil }
+func (i SimInfo) ModTime() time.Time         { return time.Unix(0, 0) }
+func (i SimInfo) IsDir() bool                { return i.n.dir }
+func (i SimInfo) Sys() interface{}           { return nil }
+func (i SimInfo) Type() fs.FileMode          { return i.Mode().Type() }
+func (i SimInfo) Info() (fs.FileInfo, error) { return i, nil }
 
 func (d *Disk) Stat(p string) (fs.FileInfo, error) {
 	d.Ops["stat"]++
@@ -208,13 +208,13 @@ func (d *Disk) Stat(p string) (fs.FileInfo, error) {
 
 // SimFile is an open simulated file.
 type SimFile struct {
-	d      *Disk
-	n      *node
-	Path   string
-	off    int
-	closed bool
-	reads  int
-	write  bool
+	d          *Disk
+	n          *node
+	Path       string
+	off        int
+	closed     bool
+	reads      int
+	write      bool
 	appendMode bool
 }
 
